@@ -6,7 +6,7 @@ mkdir -p $dst/demo
 ( cd $w && git diff -- src > SEED/patch.diff )
 cp $w/SEED/patch.diff $dst/patch.diff
 cp -r $w/SEED/demo/. $dst/demo/ 2>/dev/null
-cp $w/tests/seeded_demo*.rs $dst/demo/ 2>/dev/null
+find $w -name "seeded_demo*.rs" -not -path "$w/target*" -not -path "$w/SEED/*" -exec cp {} $dst/demo/ \; 2>/dev/null
 cp $w/SEED/meta.md $dst/agent_meta.md 2>/dev/null
 /verif/tools/confirm_seed.sh $w > /dev/null 2>&1
 cp $w/SEED/confirm.log $dst/confirm.log
